@@ -287,6 +287,16 @@ class Canon(ast.NodeTransformer):
                 and isinstance(node.args[0], ast.Constant) and node.args[0].value == -1:
             node.args = []
             return node
+        # dict([p]) with p a pair held in a name is {p[0]: p[1]};  dict([(a, b)]) is {a: b}
+        if fn == "dict" and len(node.args) == 1 and not node.keywords and isinstance(node.args[0], (ast.List, ast.Tuple)) and len(node.args[0].elts) == 1:
+            p0 = node.args[0].elts[0]
+            if isinstance(p0, ast.Name):
+                import copy
+                k = ast.copy_location(ast.Subscript(value=copy.deepcopy(p0), slice=ast.Constant(value=0), ctx=ast.Load()), p0)
+                v = ast.copy_location(ast.Subscript(value=copy.deepcopy(p0), slice=ast.Constant(value=1), ctx=ast.Load()), p0)
+                return ast.fix_missing_locations(ast.copy_location(ast.Dict(keys=[k], values=[v]), node))
+            if isinstance(p0, ast.Tuple) and len(p0.elts) == 2 and not any(isinstance(x, ast.Starred) for x in p0.elts):
+                return ast.copy_location(ast.Dict(keys=[p0.elts[0]], values=[p0.elts[1]]), node)
         # empty containers
         if fn in ("tuple", "list", "dict") and not node.args and not node.keywords:
             lit = {"tuple": ast.Tuple(elts=[], ctx=ast.Load()), "list": ast.List(elts=[], ctx=ast.Load()), "dict": ast.Dict(keys=[], values=[])}[fn]
@@ -363,6 +373,27 @@ class Canon(ast.NodeTransformer):
             a = ast.copy_location(ast.Assign(targets=[copy.deepcopy(node.targets[0])], value=ie.body), node)
             b = ast.copy_location(ast.Assign(targets=[copy.deepcopy(node.targets[0])], value=ie.orelse), node)
             return self.visit_If(ast.copy_location(ast.If(test=ie.test, body=[a], orelse=[b]), node), descend=False)
+        return node
+
+    def visit_Expr(self, node):
+        # L.extend([E for x in XS if c])  is  for x in XS: if c: L.append(E)   (L a plain name E, XS and c do not mention)
+        self.generic_visit(node)
+        c = node.value
+        # self.election_states.extend(X) is self.election_states += X (the recorded states of an election are a list)
+        if isinstance(c, ast.Call) and isinstance(c.func, ast.Attribute) and c.func.attr == "extend" and len(c.args) == 1 and not c.keywords \
+                and isinstance(c.func.value, ast.Attribute) and c.func.value.attr == "election_states" and isinstance(c.func.value.value, ast.Name) and c.func.value.value.id == "self":
+            tgt = ast.Attribute(value=c.func.value.value, attr="election_states", ctx=ast.Store())
+            return ast.fix_missing_locations(ast.copy_location(ast.AugAssign(target=tgt, op=ast.Add(), value=c.args[0]), node))
+        if isinstance(c, ast.Call) and isinstance(c.func, ast.Attribute) and c.func.attr == "extend" and isinstance(c.func.value, ast.Name) and len(c.args) == 1 and not c.keywords \
+                and isinstance(c.args[0], (ast.ListComp, ast.GeneratorExp)) and len(c.args[0].generators) == 1 and not c.args[0].generators[0].is_async:
+            lc, g, L = c.args[0], c.args[0].generators[0], c.func.value.id
+            if not any(isinstance(n, ast.Name) and n.id == L for n in ast.walk(lc)):
+                app = ast.Expr(value=ast.Call(func=ast.Attribute(value=ast.Name(id=L, ctx=ast.Load()), attr="append", ctx=ast.Load()), args=[lc.elt], keywords=[]))
+                body = [app]
+                for t in reversed(g.ifs):
+                    body = [ast.If(test=t, body=body, orelse=[])]
+                loop = ast.For(target=g.target, iter=g.iter, body=body, orelse=[], type_comment=None)
+                return ast.fix_missing_locations(ast.copy_location(loop, node))
         return node
 
     def visit_Return(self, node):
